@@ -234,6 +234,9 @@ func genW3(r *simrt.Rng, prop string, tier string) (*w3Ops, []*model.Desc) {
 		}
 		go1 := genOpts{nKeys: [2]int{3, 12}, nMaps: [2]int{1, 3}, notePool: notes, offsets: r.Chance(0.3), actions: acts, exitLen: -1, defaults: true,
 			unmapProb: 0.3, remapProb: 0.3, handlers: 1}
+		if prop == "C17" && r.Chance(0.3) {
+			go1.handlers = 2 // some keys arrive on a second handler of the keyboard (media keys on "Consumer Control")
+		}
 		d := baseDesc(r, go1)
 		uniqueNotes(d, r)
 		if prop == "C16" {
